@@ -60,6 +60,16 @@ func (m *Monitor) Check(w *World, pre raft.VNode, op Op, post raft.VNode) *Bad {
 		return &Bad{"C05", "in-memory (term,vote) differs from the durable value"}
 	}
 	m.ackVote = [2]uint64{post.DurTerm, post.DurVote}
+	// C09/C15: when a leader finishes a snapshot it may discard AT ONCE — without telling its replication goroutines —
+	// only what every one of them is past: the goroutines read their (older) log views at and above their match index;
+	// anything further has to wait for their removeLTE reports (checkLogCompact)
+	if op.Kind == "snapTaken" && pre.Role == "leader" && post.Role == "leader" && post.Log.Prev > pre.Log.Prev {
+		for _, rp := range post.Ldr.Repls {
+			if post.Log.Prev > rp.MatchIndex {
+				return &Bad{"C09/C15", fmt.Sprintf("leader discarded its log up to %d right after a snapshot although the replication to node %d has match index %d and was not told: its goroutine still reads entries above %d through the log view it holds", post.Log.Prev, rp.ID, rp.MatchIndex, rp.MatchIndex)}
+			}
+		}
+	}
 	// C01: a vote reply counts only in the election it was requested for
 	if op.Kind == "voteResult" && op.Elect != 0 && op.Elect != pre.Term && pre.Role == "candidate" && !op.Err {
 		if post.VotesNeeded != pre.VotesNeeded || (post.Role == "leader" && post.Term == pre.Term) {
@@ -219,6 +229,9 @@ func (m *Monitor) checkObs(w *World, pre raft.VNode, op Op, post raft.VNode) *Ba
 			}
 			if nv := len(o.Latest.Nodes) - len(voters(o.Latest)); nv > 0 {
 				w.St.Hist["obs:timeoutNow-with-nonvoters-present"]++
+			}
+			if !o.Transfer {
+				return &Bad{"C16", fmt.Sprintf("leader designates node %d as its successor although no leadership transfer is in progress: client commands and membership changes are still accepted, the successor may lack entries the leader accepts from now on", o.Arg)}
 			}
 			if !isVoter || o.Arg == w.Self {
 				return &Bad{"C16", fmt.Sprintf("leader designates node %d as its successor, which is not another voter of the latest configuration", o.Arg)}
